@@ -26,6 +26,7 @@ ROUND_TEXT = {
     17: "as round 16",
     18: "as round 16",
     19: "as round 16",
+    20: "as round 16, with a 15-minute limit per seeder (C07 delivered nothing; C02, C05, C11, C12 and C15 one change each)",
 }
 
 
@@ -73,7 +74,13 @@ def main():
                "returning a copy: no listed clause is broken, the demos compared object identity), C14-18 (manifests only for a "
                "user-written subclass that overrides a private hook), C12-18 (aliases two names for one object; no observable "
                "change inside the property's domain), C18-34 (needs one parameter object registered in two maps: the property "
-               "quantifies over parameter trees).  One change (C10-21) was written for C10 but alters SimPersistent's "
+               "quantifies over parameter trees), C01-40 (a size counter that is wrong only after an add() that raised inside the heap "
+               "sift because the new time cannot be compared with the pending ones - mixed Duration / number lists are outside the "
+               "property's domain, see C01's ASSUMPTIONS, and on the unchanged tree such a failed add leaves the entry on the list "
+               "as well), C14-40 (a NegBinomial draw one lower at uniforms that are exactly (1-p)**k: still an integer in the "
+               "support and a pure function of parameters and stream, so no clause of C14 is broken), C16-39 ('kg/s-2', a negative "
+               "exponent behind the division sign: not one of the eight documented forms the property quantifies over, and the "
+               "library's own docstring examples read it the other way than the unchanged parser does).  One change (C10-21) was written for C10 but alters SimPersistent's "
                "warm-up handling, which is C11's statement; it is decided by C11 (`decided_by` in its meta.json) and C10 "
                "stays green on it by design.\n")
     block = "<!-- seeded:begin -->\n" + "\n".join(out) + "<!-- seeded:end -->"
